@@ -283,22 +283,6 @@ pub fn excerpt(a: &str, b: &str) -> String {
     )
 }
 
-/// Digest of all parts (optionally masking some), for cheap equality.
-pub fn digest(parts: &Parts, skip: &[&str]) -> u64 {
-    let mut h = blake3::Hasher::new();
-    for (k, v) in parts {
-        if skip.iter().any(|s| k == &format!("rt.{s}")) {
-            continue;
-        }
-        h.update(k.as_bytes());
-        h.update(&[0]);
-        h.update(v.as_bytes());
-        h.update(&[1]);
-    }
-    let d = h.finalize();
-    u64::from_le_bytes(d.as_bytes()[..8].try_into().unwrap_or([0; 8]))
-}
-
 /// Replace every `submission_generation: IngressSubmissionGeneration(N)` by a
 /// masked token: it is an arrival counter, legitimately order-dependent.
 pub fn mask_generations(text: &str) -> String {
